@@ -14,8 +14,10 @@ from .base import BaseWorld, lib, must_raise
 SPACES = ['Real', 'Fourier', 'NonSpatial']
 BIN = {'add': (operator.add, operator.iadd), 'sub': (operator.sub, operator.isub),
        'mul': (operator.mul, operator.imul), 'div': (operator.truediv, operator.itruediv)}
-TYPESETS = {1: [['A'], ['poly'], [7]], 2: [['A', 'B'], ['p', 'solvent'], [10, 20]], 3: [['A', 'B', 'C'], ['x', 'y', 'z'], [10, 20, 30], [1, 2, 3]],
-            4: [['A', 'B', 'C', 'D'], [4, 3, 2, 1]], 5: [['A', 'B', 'C', 'D', 'E'], ['a', 'b', 'c', 'd', 'e']]}
+TYPESETS = {1: [['A'], ['poly'], [7]], 2: [['A', 'B'], ['p', 'solvent'], [10, 20], [1, 0]],
+            3: [['A', 'B', 'C'], ['x', 'y', 'z'], [10, 20, 30], [1, 2, 3], [2, 0, 1]],
+            4: [['A', 'B', 'C', 'D'], [4, 3, 2, 1], [3, 2, 1, 0]], 5: [['A', 'B', 'C', 'D', 'E'], ['a', 'b', 'c', 'd', 'e']]}
+LAYOUTS = ['C', 'C', 'C', 'F', 'swap', 'block']
 BADKEYS = ['__nope__', 0, 1, 'last_index', 99, -1, 'np0', 'trailing_space', 'other_case', 2.5]
 
 
@@ -127,7 +129,8 @@ class World(BaseWorld):
             elif k == 'new_identity':
                 o.update(space=ro.choice(SPACES))
             ops.append(o)
-        return {'config': {'rank': r, 'length': L, 'flags': flags, 'types': types, 'n_identity': n_identity}, 'ops': ops}
+        return {'config': {'rank': r, 'length': L, 'flags': flags, 'types': types, 'n_identity': n_identity,
+                           'layouts': [rc.choice(LAYOUTS) for _ in flags]}, 'ops': ops}
 
     def run(self, case, ctx):
         pp = import_pyprism()
@@ -137,12 +140,26 @@ class World(BaseWorld):
         SP = {n: getattr(pp.Space, n) for n in SPACES}
         pool = []
 
-        def new_entry(data, space):
-            ma = lib('MatrixArray()', pp.MatrixArray, length=data.shape[0], rank=r, data=np.copy(data), space=SP[space], types=list(types))
+        def new_entry(data, space, layout='C'):
+            # the user's array may have any memory layout (C / Fortran order, per-matrix transposed view, block of a larger array)
+            if layout == 'F':
+                udata = np.asfortranarray(data)
+            elif layout == 'swap':
+                udata = np.ascontiguousarray(np.swapaxes(data, 1, 2)).swapaxes(1, 2)
+            elif layout == 'block':
+                big = np.zeros((data.shape[0], r + 1, r + 2))
+                big[:, :r, :r] = data
+                udata = big[:, :r, :r]
+            else:
+                udata = np.copy(data)
+            if layout != 'C':
+                ctx.probe('data_layout_' + layout)
+            ma = lib('MatrixArray()', pp.MatrixArray, length=data.shape[0], rank=r, data=udata, space=SP[space], types=list(types))
             return {'ma': ma, 'model': np.copy(data), 'space': space}
 
+        lays = cfg.get('layouts') or []
         for n, fl in enumerate(cfg['flags']):
-            pool.append(new_entry(gen_data((seed, 'pool', n), L, r), fl))
+            pool.append(new_entry(gen_data((seed, 'pool', n), L, r), fl, lays[n] if n < len(lays) else 'C'))
         dens = new_entry(gen_data((seed, 'dens'), 1, r), 'NonSpatial')   # density-like, length 1
 
         def new_identity(space, site, step):
@@ -445,7 +462,7 @@ class World(BaseWorld):
     def expected_probes(self, tier):
         ex = ['broadcast_len1', 'refused_inplace', 'refused_outofplace', 'refused_dot', 'get_copy', 'two_inplace_same_array',
               'unknown_type_get', 'unknown_type_set', 'setitem_offdiag', 'invert', 'invert_i', 'length1', 'identity_array_in_pool',
-              'identity_created_after_inplace_ops', 'nd_1d_operand_length_equals_rank', 'unknown_type_looks_like_index', 'index_api_get', 'index_api_getMatrix', 'index_api_setMatrix', 'invert_default_args', 'nd_r', 'nd_r1', 'nd_1r', 'nd_0d', 'nd_list_r',
+              'identity_created_after_inplace_ops', 'nd_1d_operand_length_equals_rank', 'unknown_type_looks_like_index', 'data_layout_F', 'data_layout_swap', 'data_layout_block', 'index_api_get', 'index_api_getMatrix', 'index_api_setMatrix', 'invert_default_args', 'nd_r', 'nd_r1', 'nd_1r', 'nd_0d', 'nd_list_r',
               'nd_full', 'nd_rr', 'nd_L11']
         if tier == 'thorough':
             for fn in sorted(BIN):
